@@ -197,6 +197,7 @@ type Result struct {
 	OpsTotal       int
 	TornTail       bool
 	Trace          []string
+	ForgedParts    int
 }
 
 func (r *Result) fail(prop, msg string) {
@@ -321,6 +322,9 @@ func RunCrash(h History, k int, cutFrac float64, recoveryCrashes []int) (*Result
 				if v := CheckStores(n); v != "" {
 					res.fail("C18", fmt.Sprintf("after recovery from crashes %v: %s", res.Crashes, v))
 				}
+				if v := CheckPartSet(n); v != "" {
+					res.fail("C10", fmt.Sprintf("after recovery from crashes %v (WAL replay): %s", res.Crashes, v))
+				}
 				if inc == 1 {
 					res.Recovered = fingerprint(n.CS)
 					res.compareReplay(marks, walRecs, walEnd, n)
@@ -339,6 +343,10 @@ func RunCrash(h History, k int, cutFrac float64, recoveryCrashes []int) (*Result
 			}
 			res.Trace = append(res.Trace, fmt.Sprintf("inc%d booted at %v store=%d app=%d handshake-blocks=%d repaired=%v", inc, fingerprint(n.CS), n.BlockStore.Height(), p.App.Height, n.HandshakeBlocks, n.Repaired))
 			alive, reached := h.drive(n, scripts, target, mk, &res.Trace)
+			if n.PartViolation != "" {
+				res.fail("C10", fmt.Sprintf("incarnation %d (crashes so far %v): %s", inc, res.Crashes, n.PartViolation))
+			}
+			res.ForgedParts += n.ForgedParts
 			if alive {
 				n.Stop()
 				if v := CheckStores(n); v != "" {
